@@ -8,6 +8,7 @@ Confirms in a scratch git worktree (outside /repo and /verif, removed afterwards
 import json, os, shutil, subprocess, sys, tempfile
 pid, var = sys.argv[1], sys.argv[2]
 src = sys.argv[3] if len(sys.argv) > 3 else f'/tmp/mut/{pid}/out'
+save_as = sys.argv[4] if len(sys.argv) > 4 else var
 patch = os.path.join(src, f'{var}.patch.diff'); demo = os.path.join(src, f'{var}_demo.py'); meta = os.path.join(src, f'{var}_meta.json')
 wt = tempfile.mkdtemp(prefix='vt-keep-'); os.rmdir(wt)
 def sh(cmd, **kw): return subprocess.run(cmd, capture_output=True, text=True, **kw)
@@ -27,10 +28,10 @@ finally:
 ok = res.get('patch_applies') and res.get('demo_clean_rc') == 0 and res.get('demo_patched_rc') == 1 and res.get('baseline_rc') == 0 and res.get('cli_help_rc') == 0
 print(pid, var, 'CONFIRMED' if ok else 'REJECTED', json.dumps(res)[:600])
 if ok:
-    d = f'/verif/seeded/{pid}-{var}'; os.makedirs(d, exist_ok=True)
+    d = f'/verif/seeded/{pid}-{save_as}'; os.makedirs(d, exist_ok=True)
     shutil.copy(patch, os.path.join(d, 'patch.diff')); shutil.copy(demo, os.path.join(d, 'demo.py'))
     m = json.load(open(meta)) if os.path.exists(meta) else {}
-    json.dump({'property': pid, 'variant': var, 'breaks': m.get('summary'), 'needs_to_manifest': m.get('needs_to_manifest'),
+    json.dump({'property': pid, 'variant': save_as, 'breaks': m.get('summary'), 'needs_to_manifest': m.get('needs_to_manifest'),
                'files': m.get('files'), 'author': 'independent sub-agent given only the property text',
                'base_commit': head,
                'confirmed_by_me': {'cmds': ['git worktree add <scratch> HEAD', 'demo.py (clean) -> exit 0', 'git apply patch.diff', 'demo.py (patched) -> exit 1',
